@@ -324,8 +324,9 @@ fn build_cases(shapes: &[Value], seed: u64, reps: u64, small_stride: u64) -> Vec
                 let bits = sh["bits"].as_u64().unwrap() as u32;
                 let cls = sh["cls"].as_str().unwrap();
                 let r = if bits > 24 { std::cmp::max(1, reps / 2) } else { reps };
+                let own = bits <= 31; // own trial factorisation; beyond: products of certified primes
                 for rep in 0..r {
-                    if bits <= 24 {
+                    if own {
                         let n = rand_small(&mut rng, bits, cls);
                         cases.push(Case {
                             name: format!("rand/{}/{}/{}", bits, cls, rep),
@@ -435,6 +436,7 @@ pub fn run(args: &Args) -> i32 {
     let maxlines = arg_u64(args, "maxlines", 200) as usize;
     let count_bound = arg_u64(args, "count-bound", 10_000_000);
     let xcheck = arg_u64(args, "xcheck", 0);
+    let npow = arg_u64(args, "npow", 2);
     let only = args.get("only").cloned();
     let shapes = read_ndjson(arg_str(args, "shapes", "shapes.ndjson"));
     let scratch = PathBuf::from(arg_str(args, "scratch", "/tmp/c18-scratch"));
@@ -516,6 +518,22 @@ pub fn run(args: &Args) -> i32 {
             }
             if let Some(f) = &c.facs {
                 res["facs"] = Value::from(f.clone());
+            }
+            // a few small primes that have a prime form (own computation), for the Lagrange check f^h = 1
+            let mut pw: Vec<Value> = vec![];
+            let mut p = 2u64;
+            let want = if bits > 64 { std::cmp::max(1, npow / 2) } else { npow };
+            while (pw.len() as u64) < want && p < 2000 {
+                if is_prime_u64(p) && umod(&c.n, p) != 0 {
+                    let b = b_plus(&c.n, p);
+                    if b >= 0 {
+                        pw.push(json!([p, b]));
+                    }
+                }
+                p += 1;
+            }
+            if !pw.is_empty() {
+                res["pw"] = Value::from(pw);
             }
             out.ev2(base.clone(), res);
             // lines of relations.sieve (all of them, or a seeded sample of maxlines)
